@@ -1307,6 +1307,8 @@ where
         let store = self.store();
         let mut collected = 0;
         for level in &self.unique_table {
+            #[cfg(feature = "oxidd_verif")]
+            oxidd_core::util::verif::yield_point(4);
             let mut level = level.lock();
             collected += level.len() as u32;
             // SAFETY: We prepared the garbage collection, hence there are no
@@ -1511,6 +1513,8 @@ where
         insert: impl FnOnce(N) -> AllocResult<[Edge<'id, N, ET>; 2]>,
         drop: impl FnOnce(N),
     ) -> AllocResult<Edge<'id, N, ET>> {
+        #[cfg(feature = "oxidd_verif")]
+        oxidd_core::util::verif::yield_point(1);
         let hash = hash_node(&node);
         // SAFETY (next 2): The hash table only contains untagged edges
         // referencing inner nodes.
@@ -1527,6 +1531,8 @@ where
                 Ok(unsafe { nodes.clone_edge_unchecked(self.0.get_at_slot_unchecked(slot)) })
             }
             Err(slot) => {
+                #[cfg(feature = "oxidd_verif")]
+                oxidd_core::util::verif::yield_point(2);
                 let [e1, e2] = insert(node)?;
                 // SAFETY: `slot` was returned by `find_or_find_insert_slot`.
                 // We have exclusive access to the hash table and did not modify
